@@ -112,6 +112,17 @@ pub fn sd_jwt(cex: &Value) -> Result<String, String> {
     kexpect("other audience", k(&sd(Some(kb.clone()), disclosures.clone()), &kopts().aud("aud2")), false);
     kexpect("disclosure withheld: sd_hash over other data", k(&sd(Some(kb.clone()), vec![]), &kopts()), false);
     let kb_wrong_typ = sign_typed(&kb_claims("n1", "aud1", t0, jwt.as_str(), &disclosures), &hkid, "JWT", &method_key(HOLDER, "#auth"));
+    {
+      // protected header without any typ
+      let mut h = JwsHeader::new();
+      h.set_alg(JwsAlgorithm::EdDSA);
+      h.set_kid(&hkid);
+      let kbc = kb_claims("n1", "aud1", t0, jwt.as_str(), &disclosures);
+      let e = CompactJwsEncoder::new(kbc.as_bytes(), &h).unwrap();
+      let sig = crate::jws::toy_sign(&method_key(HOLDER, "#auth"), e.signing_input());
+      let no_typ = e.into_jws(&sig);
+      kexpect("typ absent", k(&sd(Some(no_typ), disclosures.clone()), &kopts()), false);
+    }
     kexpect("typ is JWT", k(&sd(Some(kb_wrong_typ), disclosures.clone()), &kopts()), false);
     let kb_wrong_key = sign_typed(&kb_claims("n1", "aud1", t0, jwt.as_str(), &disclosures), &hkid, KeyBindingJwtClaims::KB_JWT_HEADER_TYP, &method_key(HOLDER, "#assert"));
     kexpect("signed with another method's key", k(&sd(Some(kb_wrong_key), disclosures.clone()), &kopts()), false);
